@@ -24,6 +24,12 @@ pub fn cf_profile(t: &mut Tape) -> Profile {
     if t.chance(80) {
         // a variant with signals / more operators for variety
         p.signals = template;
+        if template && t.chance(150) {
+            // components with array ports indexed by (possibly redeclared) locals
+            p.components = true;
+            p.port_arrays = true;
+            p.templates = vec![crate::gen::prog::TemplateSig { name: "Zt".into(), params: 0, inputs: vec![], outputs: vec![] }];
+        }
         p.nested_signal_decls = template && t.chance(170);
         p.nested_signal_assign = true;
         p.ops = crate::gen::prog::OpsLevel::Arith;
@@ -33,6 +39,7 @@ pub fn cf_profile(t: &mut Tape) -> Profile {
     }
     p.max_stmts = 6 + t.below(14);
     p.elementwise_first = true;
+    p.all_compound_ops = true;
     p
 }
 
